@@ -149,7 +149,7 @@ func (s *sess) settingsFlow(lf *ssa.Function) *settingsFlowResult {
 			}
 			al, ok := an.Unspill(p.ResVals[0]).(*ssa.Alloc)
 			if !ok {
-				res.Problem = "the constructor " + helper.Name() + " does not return a literal it builds"
+				res.Problem = "the constructor " + an.NameOf(helper) + " does not return a literal it builds"
 				return res
 			}
 			sim := &objSim{obj: al, env: map[string]string{}, loadVal: map[ssa.Value]string{}, sub: sub}
@@ -163,7 +163,7 @@ func (s *sess) settingsFlow(lf *ssa.Function) *settingsFlowResult {
 			starts = append(starts, start{side: side, env: sim.env})
 		}
 		if len(starts) == 0 {
-			res.Problem = "the constructor " + helper.Name() + " has no returning path"
+			res.Problem = "the constructor " + an.NameOf(helper) + " has no returning path"
 			return res
 		}
 	default:
@@ -198,7 +198,7 @@ func (s *sess) settingsFlow(lf *ssa.Function) *settingsFlowResult {
 					}
 					sim.step(in)
 					if call, ok := in.(*ssa.Call); ok && sim.replaced && side != "initiator" && early == "" {
-						if cal := an.StaticCallee(&call.Call); cal != nil && (s.isSendPrimitive(cal) || cal.Name() == "RejectMessage") && !mirrored(sim.env) {
+						if cal := an.StaticCallee(&call.Call); cal != nil && (s.isSendPrimitive(cal) || an.NameOf(cal) == "RejectMessage") && !mirrored(sim.env) {
 							early = "a message is sent at " + s.c.RelPos(call.Pos()) + " after the peer's settings were adopted but before sender/target were mirrored: it leaves with the peer's own identifiers"
 						}
 					}
